@@ -10,16 +10,27 @@ ENV = dict(os.environ, CARGO_NET_OFFLINE="true", CARGO_TERM_COLOR="never")
 
 
 def build(scratch, release=False):
+    """build the replay binary against the scratch copy; the dependency cache is shared between runs, so the build and the
+    copy of the resulting binary into the scratch directory happen under a file lock"""
+    import fcntl
     rp = os.path.join(scratch, "replay")
-    if not os.path.isdir(rp):
-        shutil.copytree(os.path.join(VERIF, "replay"), rp, ignore=shutil.ignore_patterns("target", "Cargo.lock"))
-        shutil.copy(os.path.join(scratch, "repo", "Cargo.lock"), os.path.join(rp, "Cargo.lock"))
-    env = dict(ENV, CARGO_TARGET_DIR=os.path.join(CACHE, "replay-target"))
-    cmd = ["cargo", "build", "--offline"] + (["--release"] if release else [])
-    p = subprocess.run(cmd, cwd=rp, env=env, capture_output=True, text=True)
-    if p.returncode != 0:
-        raise RuntimeError("replay crate does not build: " + p.stderr[-1500:])
-    return os.path.join(CACHE, "replay-target", "release" if release else "debug", "ebv-replay")
+    prof = "release" if release else "debug"
+    mine = os.path.join(rp, f"ebv-replay-{prof}")
+    if os.path.exists(mine):
+        return mine
+    os.makedirs(CACHE, exist_ok=True)
+    with open(os.path.join(CACHE, "replay.lock"), "w") as lk:
+        fcntl.flock(lk, fcntl.LOCK_EX)
+        if not os.path.isdir(rp):
+            shutil.copytree(os.path.join(VERIF, "replay"), rp, ignore=shutil.ignore_patterns("target", "Cargo.lock"))
+            shutil.copy(os.path.join(scratch, "repo", "Cargo.lock"), os.path.join(rp, "Cargo.lock"))
+        env = dict(ENV, CARGO_TARGET_DIR=os.path.join(CACHE, "replay-target"))
+        cmd = ["cargo", "build", "--offline"] + (["--release"] if release else [])
+        p = subprocess.run(cmd, cwd=rp, env=env, capture_output=True, text=True)
+        if p.returncode != 0:
+            raise RuntimeError("replay crate does not build: " + p.stderr[-1500:])
+        shutil.copy(os.path.join(CACHE, "replay-target", prof, "ebv-replay"), mine)
+    return mine
 
 
 def run_native(scratch, fields, release=False):
